@@ -524,8 +524,26 @@ def d8_interval_normal_form(ctx):
         ctx.vanished(f"PreferenceInterval obligations: only {len(sub.obs)}")
 
 
+def d9_bloc_mixture(ctx):
+    """The ballots of a bloc model are a mixture: bloc b contributes its share of the voters, drawn from b's own model.
+    Which bloc receives which share is decided by C14.G1 (the apportionment is keyed in the order of its proportions, and
+    self.blocs is that order; the crossover / Cambridge voter types are cohesion * share and consumed by key) - a share
+    handed to another bloc leaves every ballot well-formed and changes the distribution."""
+    from rules import c14
+    sub = type(ctx)(ctx.prog, ctx.prop, ctx.tier)
+    c14.g1_apportionment(sub)
+    n = 0
+    for o in sub.obs:
+        o.rule = "C16.D9"
+        ctx.obs.append(o)
+        n += 1
+    if n < 11:
+        ctx.vanished(f"bloc mixture obligations: only {n}")
+
+
 RULES = [
     ("C16.D8", d8_interval_normal_form, 8, "prerequisite: PreferenceInterval splits off exactly the zero supports, then normalises by the sum (C15.R1)"),
+    ("C16.D9", d9_bloc_mixture, 11, "prerequisite: each bloc receives its own share of the voters (C14.G1: apportionment keyed in the order of the proportions; voter types by key)"),
     ("C16.D1", d1_alignment, 12, "population/probability alignment at every weighted draw in the package (reaching definitions incl. loop-carried)"),
     ("C16.D2", d2_metropolis, 7, "MCMC kernels: uniform adjacent proposal, swap move, Metropolis acceptance (min(1,r) or reciprocal pair)"),
     ("C16.D3", d3_spatial_sort, 3, "spatial models rank candidates by ascending distance"),
